@@ -29,6 +29,7 @@ def parseRes (s : String) : Option Res :=
   | "ok" => some .ok | "err.nolp" => some (.err .nolp) | "err.bal" => some (.err .bal)
   | "err.units" => some (.err .units) | "err.asym" => some (.err .asym)
   | "err.validate" => some (.err .validate) | "panic" => some (.err .panic)
+  | "err.queued" => some (.err .queued) | "err.health" => some (.err .health)
   | "err.other" => some (.err .panic)   -- never produced by the model; only read on chk lines
   | _ => none
 
@@ -48,12 +49,16 @@ def getLedger (ls : List (String × Ledger)) (k : String) : Ledger :=
 def setLedger (ls : List (String × Ledger)) (k : String) (g : Ledger) : List (String × Ledger) :=
   (k, g) :: ls.filter (fun p => p.1 != k)
 
+def parseHealth : String → Option Health
+  | "pass" => some .pass | "queue" => some .queue | "block" => some .block | "panic" => some .panic
+  | _ => none
+
 def parseOp (key kind : String) (args : List String) : Option Op :=
   match kind, args with
   | "unlock", [u] => do let u ← parseNat u; some (.unlock key u)
   | "cancel", [u] => do let u ← parseNat u; some (.cancel key u)
-  | "rmu", [w] => do let w ← parseNat w; some (.removeUnits key w)
-  | "rm", [wb, a] => do let wb ← parseInt wb; let a ← parseInt a; some (.remove key wb a)
+  | "rmu", [w, hc] => do let w ← parseNat w; let hc ← parseHealth hc; some (.removeUnits key w hc)
+  | "rm", [wb, a, hc] => do let wb ← parseInt wb; let a ← parseInt a; let hc ← parseHealth hc; some (.remove key wb a hc)
   | _, _ => none
 
 def handle (d : DS) : List String → Option (DS × String)
@@ -72,6 +77,7 @@ def handle (d : DS) : List String → Option (DS × String)
       let h ← parseInt h; let m ← parseNat minted
       let r := step d.st h (.add key m)
       some ({ d with st := r.1 }, s!"{r.2.toString} {showLP (r.1.lps key)}")
+  | ["obs", key] => some (d, showLP (d.st.lps key))
   | ["chk", "c15.remove", _tag, L, C, h, before, burned, acc] => do
       let L ← parseNat L; let C ← parseNat C; let h ← parseInt h
       let before ← parseRecs before; let burned ← parseNat burned; let acc ← parseBool acc
